@@ -35,6 +35,19 @@ int main(int argc, char** argv) {
             }
             cds::gc::DHP::scan();
         }
+        // every guard of the thread holds a distinct object (1..40 live hazards); all of them are retired and scanned: none may be disposed
+        for (unsigned k = 1; k <= 40 && !found; ++k) {
+            disposed.clear();
+            {
+                std::vector<cds::gc::DHP::Guard> gs(k);
+                for (unsigned i = 0; i < k; ++i) gs[i].assign((void*)(uintptr_t)(0x400000 + 0x40 * i));
+                for (unsigned i = 0; i < k; ++i) cds::gc::DHP::retire((void*)(uintptr_t)(0x400000 + 0x40 * i), disposer);
+                cds::gc::DHP::scan();
+                for (unsigned i = 0; i < k && !found; ++i) if (disposed[(void*)(uintptr_t)(0x400000 + 0x40 * i)] > 0) {
+                    std::printf("REPRODUCED %s: DHP: one thread holds %u guards on %u distinct objects, retires all of them and scans: object #%u was given to its disposer while guarded\n", c.c_str(), k, k, i); found = 1; }
+            }
+            cds::gc::DHP::scan();
+        }
         if (!found) {
             std::vector<void*> objs = { (void*)0x5000, (void*)0x6000, (void*)0x7000 };
             disposed.clear();
